@@ -202,7 +202,15 @@ func VerifHarness_C17_crash() {
 	var pending *c16Msg
 	N1, T1 := N, T
 	resetting := false
-	switch verifConc(ndInt("interrupted-op", 0, 5)) {
+	switch verifConc(ndInt("interrupted-op", 0, 7)) {
+	case 6:
+		// the process had been restarted and dies again while opening the store
+		verifCase("reopen")
+		store.Close()
+		newFileStore(c16Session, "d", true)
+	case 7:
+		verifCase("refresh")
+		store.Refresh()
 	case 4:
 		verifCase("reset")
 		resetting = true
